@@ -10,7 +10,9 @@ Inductive cop :=
 | ORaw (x : bool) (b : bytes)
 | OTick (x : bool)
 | ORotate (x : bool) (k : N) (id : N) (use : bool) (rnd6 : bytes)
-| OState (x : bool).
+| OState (x : bool)
+| OSetNonce (x : bool) (slot : N) (n : bytes)     (* harness: put a send counter at a chosen value *)
+| OLog.                                           (* harness: the seal log so far (ghost) *)
 
 Inductive cout :=
 | CSealed (keyid : N) (ctr7 : bytes) (len : nat)
@@ -18,7 +20,8 @@ Inductive cout :=
 | CErr
 | CPanic
 | CNone
-| CState (cur : N) (st : list (bytes * N * N * N)).   (* per slot: send nonce, min, next_min, seen *)
+| CState (cur : N) (st : list (bytes * N * N * N))   (* per slot: send nonce, min, next_min, seen *)
+| CLog (l : list (N * bytes)).                      (* (key, nonce) of every seal so far *)
 
 Record cst := { ea : core; eb : core; sent : list dgram }.
 
@@ -57,6 +60,11 @@ Definition cstep (s : cst) (o : cop) : cst * cout :=
   | ORaw x b => do_decrypt s x (dgram_of_bytes b)
   | OTick x => (set_end s x (core_tick (get_end s x)), CNone)
   | ORotate x k id use r => (set_end s x (core_rotate (get_end s x) k id use r), CNone)
+  | OSetNonce x i nn =>
+      let c := get_end s x in
+      let sl := get_slot c i in
+      (set_end s x (set_slot c i {| s_key := s_key sl; s_send := nn; s_win := s_win sl |}), CNone)
+  | OLog => (s, CLog (flat_map (fun d => match d with DG _ _ (Seal k nn _) _ => [(k, nn)] | _ => [] end) (sent s)))
   | OState x =>
       let c := get_end s x in
       (s, CState (current c) (map (fun sl => (s_send sl, minn (s_win sl), next_min (s_win sl), seen (s_win sl))) (slots c)))
